@@ -127,6 +127,12 @@ type model struct {
 	emptySl func() interface{}
 	zeroSl  func() interface{} // non-empty slice whose elements have no primary key
 	keys    []keyPat
+	// further empty condition forms built from the model's type (see eforms)
+	ppZero   func() interface{} // **M pointing to an all-zero struct
+	slVal    func() interface{} // []M{}
+	pslVal   func() interface{} // []*M{}
+	pslPtr   func() interface{} // &[]*M{}
+	ppZeroSl func() interface{} // **[]M pointing to an empty slice
 }
 
 func mk[T any](name, table string, withS func(string) T, withA func(int64) T, keys ...keyPat) model {
@@ -137,7 +143,12 @@ func mk[T any](name, table string, withS func(string) T, withA func(int64) T, ke
 		func(a int64) interface{} { return withA(a) },
 		func() interface{} { return &[]T{} },
 		func() interface{} { sl := make([]T, 2); return &sl },
-		keys}
+		keys,
+		func() interface{} { p := new(T); return &p },
+		func() interface{} { return []T{} },
+		func() interface{} { return []*T{} },
+		func() interface{} { return &[]*T{} },
+		func() interface{} { p := &[]T{}; return &p }}
 }
 
 var models = []model{
@@ -238,6 +249,64 @@ var steps = []step{
 	}, nil},
 }
 
+// Empty condition forms handed over BY POINTER (and the by-value slice forms not among the steps above): a pointer
+// to an empty slice is an empty slice, a pointer to a pointer to an all-zero struct is an all-zero struct. Each
+// form is a fresh value per use. Every form is given to Where / Not / Or, to a Where inside Scopes, and as the
+// inline condition of Delete (fourth block of the enumeration, see run).
+type eform struct {
+	name string
+	v    func(m model) interface{}
+}
+
+var eforms = []eform{
+	{`&[]int64{}`, func(m model) interface{} { return &[]int64{} }},
+	{`&[]string{}`, func(m model) interface{} { return &[]string{} }},
+	{`&[]uint{}`, func(m model) interface{} { return &[]uint{} }},
+	{`&[]interface{}{}`, func(m model) interface{} { return &[]interface{}{} }},
+	{`&p with p = &[]int64{}`, func(m model) interface{} { p := &[]int64{}; return &p }},
+	{`&p with p = &[]string{}`, func(m model) interface{} { p := &[]string{}; return &p }},
+	{`new([]int64) (pointer to a nil slice)`, func(m model) interface{} { return new([]int64) }},
+	{`[]uint{}`, func(m model) interface{} { return []uint{} }},
+	{`[]interface{}{}`, func(m model) interface{} { return []interface{}{} }},
+	{`&[]M{}`, func(m model) interface{} { return m.emptySl() }},
+	{`[]M{}`, func(m model) interface{} { return m.slVal() }},
+	{`[]*M{}`, func(m model) interface{} { return m.pslVal() }},
+	{`&[]*M{}`, func(m model) interface{} { return m.pslPtr() }},
+	{`&p with p = &[]M{}`, func(m model) interface{} { return m.ppZeroSl() }},
+	{`&p with p = &M{}`, func(m model) interface{} { return m.ppZero() }},
+}
+
+// how an eform enters the operation
+var euses = []string{"Where", "Not", "Or", "inline / Scopes"}
+
+// xstep: one extra call carrying an eform, placed at position pos among the ordinary steps of the chain
+// (f), or the eform as the only inline condition of a delete finisher (inline)
+type xstep struct {
+	name   string
+	pos    int
+	f      func(db *gorm.DB) *gorm.DB
+	inline []interface{}
+}
+
+func mkXstep(m model, ef eform, use int, isDelete bool, pos int) *xstep {
+	x := &xstep{pos: pos}
+	switch {
+	case use == 0:
+		x.name, x.f = "Where("+ef.name+")", func(db *gorm.DB) *gorm.DB { return db.Where(ef.v(m)) }
+	case use == 1:
+		x.name, x.f = "Not("+ef.name+")", func(db *gorm.DB) *gorm.DB { return db.Not(ef.v(m)) }
+	case use == 2:
+		x.name, x.f = "Or("+ef.name+")", func(db *gorm.DB) *gorm.DB { return db.Or(ef.v(m)) }
+	case isDelete:
+		x.name, x.inline = ef.name, []interface{}{ef.v(m)}
+	default:
+		x.name, x.f = "Scopes(Where("+ef.name+"))", func(db *gorm.DB) *gorm.DB {
+			return db.Scopes(func(d *gorm.DB) *gorm.DB { return d.Where(ef.v(m)) })
+		}
+	}
+	return x
+}
+
 // effective conditions (positive side). kind says where the condition enters the operation:
 const (
 	inChain  = iota // a chain call inserted at a random position
@@ -261,6 +330,9 @@ var conds = []cond{
 	{`Where(M{A:1})`, inChain, func(db *gorm.DB, m model, k keyPat) *gorm.DB { return db.Where(m.withA(1)) }, nil},
 	{`Where("a IN ?", []int64{1,2})`, inChain, func(db *gorm.DB, m model, k keyPat) *gorm.DB { return db.Where("a IN ?", []int64{1, 2}) }, nil},
 	{`Where([]int64{1})`, inChain, func(db *gorm.DB, m model, k keyPat) *gorm.DB { return db.Where([]int64{1}) }, nil},
+	{`Where(&[]int64{1})`, inChain, func(db *gorm.DB, m model, k keyPat) *gorm.DB { return db.Where(&[]int64{1}) }, nil},
+	{`Not(&[]string{"1"})`, inChain, func(db *gorm.DB, m model, k keyPat) *gorm.DB { return db.Not(&[]string{"1"}) }, nil},
+	{`Or(&p) with p = &[]int64{1,2}`, inChain, func(db *gorm.DB, m model, k keyPat) *gorm.DB { p := &[]int64{1, 2}; return db.Or(&p) }, nil},
 	{`Where("a", 1)`, inChain, func(db *gorm.DB, m model, k keyPat) *gorm.DB { return db.Where("a", 1) }, nil},
 	{`Where(clause.Eq)`, inChain, func(db *gorm.DB, m model, k keyPat) *gorm.DB { return db.Where(clause.Eq{Column: "a", Value: 1}) }, nil},
 	{`Where("a = @v", named)`, inChain, func(db *gorm.DB, m model, k keyPat) *gorm.DB {
@@ -289,6 +361,7 @@ var conds = []cond{
 	{`inline map a:1`, delArg, nil, func(m model) []interface{} { return []interface{}{map[string]interface{}{"a": 1}} }},
 	{`inline M{A:1}`, delArg, nil, func(m model) []interface{} { return []interface{}{m.withA(1)} }},
 	{`inline []int64{1,2}`, delArg, nil, func(m model) []interface{} { return []interface{}{[]int64{1, 2}} }},
+	{`inline &[]int64{1,2}`, delArg, nil, func(m model) []interface{} { return []interface{}{&[]int64{1, 2}} }},
 	{`inline 1`, delArg, nil, func(m model) []interface{} { return []interface{}{1} }},
 	{`inline "", "a = ?", 1`, delArg, nil, func(m model) []interface{} { return []interface{}{"", "a = ?", 1} }},
 }
@@ -501,7 +574,7 @@ func (p *positive) name() string {
 // runOp builds and executes one chain; p != nil adds one effective condition.
 // The tables are dumped only for the negative direction (p == nil, guard on), where "changes no row" is demanded;
 // after the other runs the seed rows are restored whenever a statement reached the driver.
-func runOp(h *vdb.Handle, m model, chain []int, fin finisher, mode int, sessAGU bool, p *positive, dump bool) (opResult, string) {
+func runOp(h *vdb.Handle, m model, chain []int, x *xstep, fin finisher, mode int, sessAGU bool, p *positive, dump bool) (opResult, string) {
 	root := h.DB
 	var desc []string
 	var stale error
@@ -536,10 +609,17 @@ func runOp(h *vdb.Handle, m model, chain []int, fin finisher, mode int, sessAGU 
 		}
 		db = p.c.f(db, m, p.k)
 	}
+	applyX := func(i int) {
+		if x != nil && x.f != nil && (i == x.pos || (i < 0 && x.pos >= len(chain))) {
+			db = x.f(db)
+			desc = append(desc, x.name)
+		}
+	}
 	for i, s := range chain {
 		if p != nil && p.c.kind == inChain && i == p.pos {
 			applyCond()
 		}
+		applyX(i)
 		if steps[s].g != nil {
 			db = steps[s].g(db, root, m)
 		} else {
@@ -550,7 +630,11 @@ func runOp(h *vdb.Handle, m model, chain []int, fin finisher, mode int, sessAGU 
 			stale = db.Error
 		}
 	}
-	if p != nil && (p.c.kind == atEnd || (p.c.kind == inChain && p.pos >= len(chain))) {
+	if p != nil && p.c.kind == inChain && p.pos >= len(chain) {
+		applyCond()
+	}
+	applyX(-1)
+	if p != nil && p.c.kind == atEnd {
 		applyCond()
 	}
 	mark := h.Rec.Mark()
@@ -575,8 +659,12 @@ func runOp(h *vdb.Handle, m model, chain []int, fin finisher, mode int, sessAGU 
 		if p != nil && p.c.kind == delArg {
 			inline, inlineS = p.c.inline(m), strings.TrimPrefix(p.c.name, "inline ")
 		}
+		if x != nil && x.inline != nil && inline == nil {
+			// (an effective inline condition of the positive direction takes the place of the empty one)
+			inline, inlineS = x.inline, x.name
+		}
 		res, call = doDelete(db, m, fin, k, inline, inlineS)
-		if p == nil {
+		if p == nil && (x == nil || x.inline == nil) {
 			call = fin.name
 		}
 		desc = append(desc, call)
@@ -635,6 +723,7 @@ func run(c *core.Ctx) {
 	// finishers x composite-key pairs (the chain calls do not take part in how a key is read off a value);
 	// third block: chains up to length 2 x association-mode finishers x all pairs
 	L, prs, fins := maxLen(c.Tier), pairs[:nSingle], finishers
+	fourth := false
 	i := c.Case
 	if first := nChains(L) * len(finishers) * nSingle; i >= first {
 		i -= first
@@ -642,17 +731,44 @@ func run(c *core.Ctx) {
 		if second := nChains(2) * len(finishers) * len(prs); i >= second {
 			i -= second
 			prs, fins = pairs, assocFinishers
+			if third := nChains(2) * len(assocFinishers) * len(pairs); i >= third {
+				i -= third
+				fins, fourth = finishers, true
+			}
 		}
 	}
-	nc := nChains(L)
-	chainIdx := i % nc
-	i /= nc
-	fi := i % len(fins)
-	i /= len(fins)
-	pr := prs[i%len(prs)]
-	mode := pr[1]
-	chain := decodeChain(chainIdx)
-	fin, m := fins[fi], models[pr[0]]
+	var chain []int
+	var x *xstep
+	var fin finisher
+	var m model
+	var mode int
+	if fourth {
+		// fourth block: every further empty form (eforms) x {Where, Not, Or, inline condition of Delete / Where inside
+		// Scopes} x finishers x all pairs x xReps, each among 0..2 ordinary condition-free steps drawn at random
+		ei := i % len(eforms)
+		i /= len(eforms)
+		use := i % len(euses)
+		i /= len(euses)
+		fin = finishers[i%len(finishers)]
+		i /= len(finishers)
+		pr := pairs[i%len(pairs)]
+		m, mode = models[pr[0]], pr[1]
+		for n := c.R.Intn(3); n > 0; n-- {
+			chain = append(chain, c.R.Intn(len(steps)))
+		}
+		x = mkXstep(m, eforms[ei], use, !fin.needsMdl, c.R.Intn(len(chain)+1))
+		c.Inc("fourth_block_" + euses[use])
+	} else {
+		nc := nChains(L)
+		chainIdx := i % nc
+		i /= nc
+		fi := i % len(fins)
+		i /= len(fins)
+		pr := prs[i%len(prs)]
+		mode = pr[1]
+		chain = decodeChain(chainIdx)
+		fin, m = fins[fi], models[pr[0]]
+	}
 	if !fin.needsMdl && mode >= 1 {
 		// Delete takes its model from the value; mode 1 would duplicate mode 0: use it for
 		// a decoy instead (an AllowGlobalUpdate session used first must not leak into the handle)
@@ -660,7 +776,7 @@ func run(c *core.Ctx) {
 	}
 
 	// (1) negative: no effective condition, guard on
-	r, desc := runOp(E.h, m, chain, fin, mode, false, nil, true)
+	r, desc := runOp(E.h, m, chain, x, fin, mode, false, nil, true)
 	c.Logf("NEG %s", desc)
 	bad := []string{}
 	// the update of an association-mode operation assigns the foreign key only: with Select("s") in the chain
@@ -727,7 +843,7 @@ func run(c *core.Ctx) {
 	// a model value / deleted value that carries a (possibly partly set) primary key, an inline condition of Delete
 	// (a leading Or as first condition call is still a condition)
 	p := pickPositive(c.R, m, chain, fin)
-	pr2, pdesc := runOp(E.h, m, chain, fin, mode, false, p, false)
+	pr2, pdesc := runOp(E.h, m, chain, x, fin, mode, false, p, false)
 	c.Logf("POS %s", pdesc)
 	// a DryRun session keeps the generated SQL in the statement for inspection (by design): a read executed
 	// on such a chain value leaves its SELECT there, and a finisher called on the same value afterwards
@@ -775,9 +891,9 @@ func run(c *core.Ctx) {
 		var ar opResult
 		var adesc string
 		if c.R.Bool() {
-			ar, adesc = runOp(E.h, m, chain, fin, mode, true, nil, false)
+			ar, adesc = runOp(E.h, m, chain, x, fin, mode, true, nil, false)
 		} else {
-			ar, adesc = runOp(E.hCfgAGU, m, chain, fin, mode, false, nil, false)
+			ar, adesc = runOp(E.hCfgAGU, m, chain, x, fin, mode, false, nil, false)
 		}
 		c.Logf("AGU %s", adesc)
 		if errors.Is(ar.err, gorm.ErrMissingWhereClause) && ar.stale == nil {
@@ -791,8 +907,11 @@ func run(c *core.Ctx) {
 
 func cases(tier string) int {
 	return nChains(maxLen(tier))*len(finishers)*nSingle + nChains(2)*len(finishers)*(len(pairs)-nSingle) +
-		nChains(2)*len(assocFinishers)*len(pairs)
+		nChains(2)*len(assocFinishers)*len(pairs) + len(eforms)*len(euses)*len(finishers)*len(pairs)*xReps
 }
+
+// xReps: how often every (form, use, finisher, pair) of the fourth block is run (with other surrounding steps)
+const xReps = 2
 
 var Engine = &core.Engine{
 	ID:    "C09",
@@ -818,6 +937,7 @@ var Engine = &core.Engine{
 		"association mode, where gorm has nothing to run, only 'no statement, no row changed' is demanded and the error is not looked at: Clear() of the has-many relation for an owner without key (gorm issues nothing and returns nil), and Clear() of the belongs-to relation with Select(\"s\") in the chain (the foreign key is not among the selected columns, nothing is left to assign, gorm returns nil before the guard; same reading as for Table(t).Select(\"*\").Updates(map))",
 		"association mode needs a model value: Table() without Model() fails in Association() itself (no schema) and is replaced by Model(&[]M{})",
 		"Where(nil) / Not(nil) are not generated: nil is not among the empty forms the statement lists",
+		"a pointer to an empty slice (any depth of pointers, a nil slice included) is read as an empty slice, a pointer to a pointer to an all-zero struct as an all-zero struct; a pointer to an empty map and a pointer to an empty string are NOT generated: gorm does not take *map / *string as a map / string condition at all (the pointer itself becomes the value compared with the primary key), so the statement's 'empty maps, empty strings' does not fix their treatment; neither are empty arrays ([0]T), []byte{} (a scalar value for gorm) and non-empty slices of all-zero structs",
 		"table contents are compared for the negative direction only; after positive / AllowGlobalUpdate runs the seed rows are restored whenever a statement reached the driver",
 	},
 	Cases: cases,
